@@ -31,3 +31,6 @@ finally:
     shutil.rmtree(wt, ignore_errors=True)
     for d in glob.glob(os.path.join(VERIF, "build", "*" + wt.strip("/").replace("/", "_"))):
         shutil.rmtree(d, ignore_errors=True)
+    if not os.environ.get("VERIF_MUTEST_KEEP"):      # the scratch run's out dir (traces, TLC logs) can be hundreds of MB
+        for d in glob.glob(os.path.join(VERIF, "out", "*_" + wt.strip("/").replace("/", "_") + "*")):
+            shutil.rmtree(d, ignore_errors=True)
